@@ -60,6 +60,7 @@ type Clause struct {
 
 type LoopContract struct {
 	NoAutoFrame bool
+	NoBreak     bool // the loop is only left through its own condition (every element is visited)
 	Invs      []Clause
 	Iters     []Clause // checked at the end of every iteration over the calls made during that iteration
 	Decreases Expr
@@ -690,6 +691,9 @@ func readContractFile(path, pkg string) (*ContractFile, error) {
 				case "opt":
 					if strings.TrimSpace(fs[2]) == "noautoframe" {
 						lc.NoAutoFrame = true
+					}
+					if strings.TrimSpace(fs[2]) == "nobreak" {
+						lc.NoBreak = true
 					}
 				default:
 					return nil, fail(fmt.Errorf("loop <n> invariant|decreases"))
